@@ -64,6 +64,14 @@ META = {
         bounds_thorough="sequence length 6 over 8 tokens; plus 4+4+4",
         assumptions=COMMON_ASSUME + ["the limiter interval (10 min) is not crossed: the fake clock stands still within a history"],
     ),
+    "C09": dict(
+        rule="all 24 services behind the real server.New+Run in a bubble; for every seed of C01 (<=20 kB): the full seed, the seed cut in half (mid-command) and the seed without its last byte, plus 'no byte sent' and 6 raw prefixes, each followed by client close or by silence; all ordered pairs of (up to 14) seeds followed by close/silence; histories of N in {1,2,5,20,200} identical sequential connections; UDP: every seed datagram, empty and 1-byte datagrams, bursts of 20 and 200. Oracle: the server closed the connection (Handle returned) within 32 fake seconds of the trigger; the multiset of goroutines with a frame in github.com/honeytrap/honeytrap (signature: top honeytrap function <- creator) equals the pre-connection baseline after one more idle period; /proc/self/fd count after two GCs does not grow. Distinct = (service, scenario group) outcomes; classes count scenarios per (service, trigger).",
+        bounds_quick="seed pairs over <=14 seeds; histories to 200",
+        bounds_thorough="all seed pairs; histories to 200",
+        assumptions=COMMON_ASSUME + ["FTP passive-mode listeners need kernel sockets and are checked in the real-socket part (part 'pasv'), not in the bubble", "'nothing accumulates' is decided up to N=200 connections"],
+        deadline_quick=900, deadline_thorough=3400,
+        parts={"pasv": 1},
+    ),
 }
 
 NOT_APPLICABLE = {}
